@@ -321,7 +321,20 @@ M("M_C13_x6", ["C13"], "cotengra/interface.py",
   "        lz_output = memo[mkey]\n",
   "all operands constant: the performed contraction is remembered per contraction (cache=True only), other constant arrays get the first result (stale cache)", ["tests/test_interface.py"])
 
+M("M_C08_r1", ["C08"], "cotengra/hyperoptimizers/hyper.py",
+  "            # a custom callable objective need not have filled these in\n            ensure_basic_quantities_are_computed(trial)\n",
+  "",
+  "revert of cc45b0a: a plain callable minimize leaves trial['flops'] unset -> search raises KeyError (cfg:plain_callable)", ["tests/test_optimizers.py"])
+
 # ------------------------------- C14 (widened: update_from_tree / cleanup / directory=True) ----------
+M("M_C14_r1", ["C14"], "cotengra/pathfinders/path_basic.py",
+  "        # entries added with ``update_from_tree`` can be sliced\n        for ix in con[\"sliced_inds\"]:\n            tree.remove_ind_(ix)\n\n",
+  "",
+  "revert of 2225b09: the random-greedy reusable optimizer ignores the stored sliced indices on a hit (update_sliced, rg)", ["tests/test_paths_basic.py"])
+M("M_C14_r2", ["C14"], "cotengra/utils.py",
+  "                if p.is_dir():\n                    # entries are split into sub-directories\n                    for q in p.glob(\"*\"):\n                        q.unlink()\n                    p.rmdir()\n                else:\n                    p.unlink()\n",
+  "                p.unlink()\n",
+  "revert of dd5f806: DiskDict.clear / cleanup() raises IsADirectoryError on a split directory and leaves the files (cleanup_ops)", ["tests/test_utils.py"])
 M("M_C14_w1", ["C14"], "cotengra/reusable.py",
   "        elif overwrite:\n            if overwrite == \"improved\":",
   "        elif overwrite is True:\n            if overwrite == \"improved\":",
